@@ -2962,7 +2962,11 @@ class MemoryObjectStore(PackCapableObjectStore):
                     # ``add_thin_pack`` already validates via
                     # ``PackStreamCopier.verify``; do the equivalent here.
                     p.check()
-                    for obj in PackInflater.for_pack_data(p, self.get_raw):
+                    # Inflate the whole pack before publishing anything: a
+                    # pack that fails half-way (unresolved deltas, an object
+                    # that does not parse) must not leave objects behind.
+                    objects = list(PackInflater.for_pack_data(p, self.get_raw))
+                    for obj in objects:
                         self.add_object(obj)
                 finally:
                     p.close()
